@@ -1,7 +1,12 @@
 #!/usr/bin/env python3
 """Re-run the registered checks against stored seeded changes.
 
-usage: tools_seed_rerun.py [--tier quick|thorough] [name ...]     (default: all seeds)
+usage: tools_seed_rerun.py [--tier quick|thorough] [--scratch] [name ...]     (default: all seeds)
+
+--scratch: bulk regression in a scratch worktree of /repo (vcheck --repo <dir>;
+evidence of such runs goes to evidence/_debug) so that /repo stays untouched;
+the worktree is removed at the end.  Results recorded in DESIGN.md come from
+runs without --scratch.
 
 For every seed: git -C /repo apply seeded/<name>/patch.diff, run the check of
 the seed's property (and of 'also_run' properties listed in its meta.json),
@@ -24,8 +29,16 @@ def main():
         i = args.index("--tier")
         tier = args[i + 1]
         del args[i:i + 2]
+    scratch = "--scratch" in args
+    if scratch:
+        args.remove("--scratch")
+    repo = "/repo"
+    if scratch:
+        repo = f"/tmp/seedrun-{os.getpid()}"
+        rc, o = run(f"git -C /repo worktree add --detach {repo} HEAD")
+        assert rc == 0, o
     names = args or sorted(os.path.basename(os.path.dirname(p)) for p in glob.glob("/verif/seeded/*/meta.json"))
-    rc, st = run("git -C /repo status --porcelain")
+    rc, st = run(f"git -C {repo} status --porcelain")
     assert st.strip() == "", "/repo is not clean"
     rows = []
     for name in names:
@@ -34,7 +47,7 @@ def main():
         props = [meta["property"]] + [p for p in meta.get("also_run", []) if p != meta["property"]]
         if meta.get("detected_by_property_check") and meta["detected_by_property_check"] not in props:
             props.append(meta["detected_by_property_check"])
-        rc, o = run(f"git -C /repo apply {d}/patch.diff")
+        rc, o = run(f"git -C {repo} apply {d}/patch.diff")
         if rc != 0:
             rows.append((name, "patch does not apply", ""))
             continue
@@ -42,17 +55,20 @@ def main():
         try:
             for prop in props:
                 t0 = time.time()
-                rc, o = run(f"timeout 3300 /verif/bin/vcheck run --property {prop} --tier {tier}", cwd="/verif")
+                rc, o = run(f"timeout 3300 /verif/bin/vcheck run --property {prop} --tier {tier}" + (f" --repo {repo}" if scratch else ""), cwd="/verif")
                 lines = [l for l in o.splitlines() if l.startswith(("VIOLATION", "  harness=", "OK ", "INCONCLUSIVE", "TOOL-ERROR", "KNOWN"))]
                 res[prop] = {"exit": rc, "detected": rc == 1 and any(l.startswith("VIOLATION") for l in lines),
                              "wall_s": round(time.time() - t0, 1), "first_lines": lines[:4]}
         finally:
-            run("git -C /repo checkout -- .")
-            for prop in props:
-                run(f"git -C /verif checkout -- evidence/{prop}.json")
-        meta["current"] = {"tier": tier, "results": res, "detected": any(r["detected"] for r in res.values())}
+            run(f"git -C {repo} checkout -- .")
+            if not scratch:
+                for prop in props:
+                    run(f"git -C /verif checkout -- evidence/{prop}.json")
+        meta["current"] = {"tier": tier, "scratch_worktree": scratch, "results": res, "detected": any(r["detected"] for r in res.values())}
         json.dump(meta, open(f"{d}/meta.json", "w"), indent=1)
         rows.append((name, " ".join(f"{p}:{'DETECTED' if r['detected'] else 'exit'+str(r['exit'])}" for p, r in res.items()), ""))
+    if scratch:
+        run(f"git -C /repo worktree remove --force {repo}")
     for r in rows:
         print(f"{r[0]:40s} {r[1]}")
 
